@@ -102,36 +102,20 @@ func checkC05(c *Ctx) {
 		c.check(to["field:"+m.Token] && to.all(func(k string) bool { return k == "field:"+m.Token || k == `const:""` }), "R3", "refresh republishes the term token in "+shortFn(op.Fn), op.Call, "origins of payload.Token: %s", to)
 		ido := m.FieldOrigins(op.Call.Call.Args[1], "ID")
 		c.check(ido.all(func(k string) bool { return k == "cfg:InstanceID" }), "R3", "refresh republishes the identity in "+shortFn(op.Fn), op.Call, "origins of payload.ID: %s", ido)
-		// the token is read per refresh, in the critical section that reads claim and revision:
-		// a token read once outside it survives into a later term of the same loop
+		// the token is read per refresh, under the election mutex, inside the loop (or in a helper
+		// called from it): a token read once outside survives into a later term of the same loop
 		la := m.Locks()
-		okTok := false
-		if rf := m.refreshLoopFn(); rf != nil {
-			eachInstr(rf, func(in ssa.Instruction) {
-				call, ok := in.(*ssa.Call)
-				if !ok {
-					return
-				}
-				h := la.MustBefore(call)
-				if (h[m.implMuR()] || h[m.implMuW()]) && inLoop(call.Block()) && m.Origins(call)["field:"+m.Token] {
-					okTok = true
-				}
-			})
-			eachInstr(rf, func(in ssa.Instruction) {
-				call, ok := in.(*ssa.Call)
-				if !ok {
-					return
-				}
-				h := la.MustBefore(call)
-				if m.Origins(call)["field:"+m.Token] && !(h[m.implMuR()] || h[m.implMuW()]) && !m.isAtomicLoadOf(call, m.Revision) {
-					// an unlocked token read feeding the payload
-					for _, ld := range m.OriginLoadsField(op.Call.Call.Args[1], "Token") {
-						if hh := la.MustBefore(ld); !(hh[m.implMuR()] || hh[m.implMuW()]) {
-							okTok = false
-						}
-					}
-				}
-			})
+		tokLoads := m.OriginLoadsField(op.Call.Call.Args[1], "Token")
+		okTok := len(tokLoads) > 0
+		rf := m.refreshLoopFn()
+		for _, ld := range tokLoads {
+			h := la.MustBefore(ld)
+			if !(h[m.implMuR()] || h[m.implMuW()]) {
+				okTok = false
+			}
+			if rf != nil && ld.Parent() == rf && !inLoop(ld.Block()) {
+				okTok = false
+			}
 		}
 		c.check(okTok, "R3", "refresh reads the token in the per-tick critical section in "+shortFn(op.Fn), op.Call, "token field read under the election mutex inside the loop: %v", okTok)
 	}
